@@ -19,5 +19,5 @@ def run(ctx):
     known = load_known("C12")
     bad = sorted({m.group(1) for k in known for m in [re.match(r"sweep:inverse_gate:(\w+)$", k)] if m})
     ctx.translate("inverse", inverse.run, os.path.join(ctx.work, "gen"), os.path.join(ctx.work, "invtab.json"), bad)
-    ctx.coq(["invtab.v"], ["C12.v"])
+    ctx.coq(["invtab.v"], ["C12.v", "C12_refuted.v"], optional=("C12_refuted.v",))
     ctx.harness("sweep_C12.py")
